@@ -1075,6 +1075,13 @@ class TextXVisitor(RRELVisitor):
 
         except IndexError:
             to_match = ""
+        except UnicodeDecodeError as e:
+            line, col = self.grammar_parser.pos_to_linecol(node.position)
+            raise TextXSyntaxError(
+                f"Invalid escape sequence in string match {node}: {e.reason}",
+                line,
+                col,
+            ) from e
 
         # Support for autokwd metamodel param.
         if self.metamodel.autokwd:
